@@ -3,6 +3,8 @@
    Only statements here; every proof is `exact <lemma of Proofs/C20b_SessionHooks.v>` or a closed computation. *)
 From Coq Require Import List Bool ZArith.
 Require Import MTX.Lib.Trace MTX.Model.C20b_SiteTypes MTX.Model.C20b_SessionHooks MTX.Proofs.C20b_SessionHooks.
+Require Import MTX.Model.C20b_HlsMux.
+Require MTX.Proofs.C20b_HlsMux.
 Require Import MTXGen.C20_HookSites.
 Import ListNotations.
 
@@ -146,6 +148,41 @@ Example C20b_hls_partial_nonvacuous :
   hl_trace false ([HKick; HRemove] ++ [HReg; HSetHook] ++ [HRemove; HKick; HDestroy]) = [HStart; HStop] /\
   hl_destroy_last [HRemove; HKick; HDestroy] = true /\ hl_destroy_last [HDestroy; HKick] = false.
 Proof. vm_compute. repeat split. Qed.
+
+(* ---- HLS front end at the level of the muxer: which sessions the muxer can still reach --------------------------------
+   Model/C20b_HlsMux.v (module HX): requests for the multivariant playlist (ordinary / CDN) pass the HTTP handler's
+   checks (MArrive), wait in pathManager.AddReader for as long as the path manager likes - so several CDN requests may
+   all have seen "no CDN session yet" - and are registered one by one (MProceed); idle expiry, API kick, and every way
+   the muxer drops all its sessions.  For ALL schedules and every session s: the calls of s's reader hook are well-formed
+   start/stop pairs, the pair is open exactly while the muxer can reach s, and nothing is open once the muxer has dropped
+   its sessions (later requests that are not admitted change nothing).  addSession replacing the CDN session without
+   closing it is refuted by the schedule "two concurrent first CDN requests". *)
+Theorem C20b_hls_mux_pairs : forall (ops : list HX.mop) (s : nat),
+  pairs_okb false (HX.proj s (HX.mtrace true ops)) = true /\
+  mon_run (alt_mon hcls) false (HX.proj s (HX.mtrace true ops)) = Some (HX.reach (HX.mfinal true ops) s).
+Proof. intros ops s. split; [apply MTX.Proofs.C20b_HlsMux.hls_mux_pairs_okb|apply MTX.Proofs.C20b_HlsMux.hls_mux_pairs]. Qed.
+Print Assumptions C20b_hls_mux_pairs.
+
+Theorem C20b_hls_mux_closed_after_close : forall (pre post : list HX.mop) (s : nat),
+  forallb (fun o => match o with HX.MProceed _ true => false | _ => true end) post = true ->
+  pairs_okb true (HX.proj s (HX.mtrace true (pre ++ HX.MCloseAll :: post))) = true.
+Proof. exact MTX.Proofs.C20b_HlsMux.hls_mux_closed_after_close. Qed.
+Print Assumptions C20b_hls_mux_closed_after_close.
+
+Theorem C20b_hls_mux_replace_without_close_refuted :
+  let w := [HX.MArrive true; HX.MArrive true; HX.MProceed 0 true; HX.MProceed 1 true; HX.MCloseAll] in
+  HX.mtrace false w = [(0, HStart); (1, HStart); (1, HStop)] /\
+  pairs_okb true (HX.proj 0 (HX.mtrace false w)) = false /\
+  HX.mtrace true w = [(0, HStart); (0, HStop); (1, HStart); (1, HStop)] /\
+  pairs_okb true (HX.proj 0 (HX.mtrace true w)) = true.
+Proof. exact MTX.Proofs.C20b_HlsMux.hls_mux_replace_without_close_refuted. Qed.
+Print Assumptions C20b_hls_mux_replace_without_close_refuted.
+
+Example C20b_hls_mux_nonvacuous :
+  HX.mtrace true [HX.MArrive false; HX.MArrive true; HX.MProceed 1 true; HX.MArrive true; HX.MProceed 0 true;
+                  HX.MKick 1; HX.MArrive true; HX.MProceed 3 true; HX.MExpire [0; 3]; HX.MCloseAll]
+  = [(1, HStart); (0, HStart); (1, HStop); (3, HStart); (0, HStop); (3, HStop)].
+Proof. vm_compute. reflexivity. Qed.
 
 (* ---- tie to the sources: every hooks.OnXxx mention of the current tree is of a modelled shape ------------------------ *)
 Theorem C20b_sites_classified : forallb site_ok hook_sites = true.
